@@ -120,7 +120,6 @@ def fold_int(idx, fn, e):
 
 def run(ctx: Context):
     idx = ctx.idx
-    cg = get_callgraph(idx)
     pack = idx.func(PACK)
     unp = idx.func(DN + "._unpack_contents")
     dmod = idx.module("allmydata.dirnode")
@@ -327,9 +326,13 @@ def run(ctx: Context):
             if inner_split:
                 e0 = arg(inner_split[0], 0, "data")
                 exprs = udefs.get(e0.id, []) if isinstance(e0, ast.Name) else [e0]
+                def first_or_last(x):       # the outer split yields exactly one element
+                    try:
+                        return ast.literal_eval(x) in (0, -1)
+                    except Exception:
+                        return False
                 good = bool(exprs) and all(
-                    isinstance(x, ast.Subscript) and attr_path(x.value) == lst and isinstance(x.slice, ast.Constant)
-                    and x.slice.value == 0 for x in exprs)
+                    isinstance(x, ast.Subscript) and attr_path(x.value) == lst and first_or_last(x.slice) for x in exprs)
                 r.require(good, unp, unp.loc(inner_split[0]), "the entry that is parsed (%s) is not element 0 of the outer "
                           "split" % " | ".join(src(unp, x) for x in exprs))
                 # the inner split starts at 0 (no position argument other than 0)
@@ -510,11 +513,13 @@ def run(ctx: Context):
                     m = re.match(r"^self\.(\w+)$", s)
                     if m and f.cls is not None:
                         attr = m.group(1)
-                        sts = [(g, nd) for (g, nd) in cg.attr_stores(attr) if g.cls is f.cls]
-                        vals = []
-                        for (g, nd) in sts:
+                        sts, vals = [], []
+                        for g in f.cls.methods.values():
                             for st in func_own_nodes(g):
-                                if isinstance(st, ast.Assign) and any(t is nd for t in st.targets):
+                                if isinstance(st, ast.Attribute) and isinstance(st.ctx, (ast.Store, ast.Del)) \
+                                        and attr_path(st) == "self." + attr:
+                                    sts.append((g, st))
+                                if isinstance(st, ast.Assign) and any(attr_path(t) == "self." + attr for t in st.targets):
                                     vals.append((g, st.value))
                         ok = bool(vals) and len(vals) == len(sts) and all(
                             g.name == "__init__" and re.match(r"^normalize\(.+\)$", N(g).norm(v)) for (g, v) in vals)
@@ -569,7 +574,7 @@ def run(ctx: Context):
             r.site(cid, c, "immutable directory creation")
             di = kwarg(c, "deep_immutable") or arg(c, 2)
             r.require(isinstance(di, ast.Constant) and di.value is True, cid, cid.loc(c),
-                      "immutable directory is packed with deep_immutable=%s" % src(cid, di))
+                      "immutable directory is packed with deep_immutable=%s" % (src(cid, di) if di is not None else "<default False>"))
             wk = arg(c, 1, "writekey")
             r.require(isinstance(wk, ast.Constant) and wk.value is None, cid, cid.loc(c),
                       "immutable directory is packed with writekey %s" % src(cid, wk))
@@ -581,7 +586,7 @@ def run(ctx: Context):
             r.site(pch, c, "flag forwarded")
             di = kwarg(c, "deep_immutable") or arg(c, 2)
             r.require(attr_path(di) == "deep_immutable", pch, pch.loc(c), "pack_children drops the deep_immutable flag (%s)"
-                      % src(pch, di))
+                      % (src(pch, di) if di is not None else "not passed"))
         # reader: refusal of non-empty rwcap + mutable children
         isp = inner_split[0] if inner_split else None
         ia = assign_of(unp, isp) if isp is not None else None
@@ -640,7 +645,8 @@ def run(ctx: Context):
         for c in calls_in_func(cv, "create_from_cap"):
             di = kwarg(c, "deep_immutable") or arg(c, 2)
             r.require(di is not None and N(cv).cmp(di, True) == ("false", "self.is_mutable()", None), cv, cv.loc(c),
-                      "children of this directory are created with deep_immutable=%s" % src(cv, di))
+                      "children of this directory are created with deep_immutable=%s"
+                      % (src(cv, di) if di is not None else "<default False>"))
 
     # -- 6. unknown-cap prefixes --------------------------------------------------
     with ctx.rule("C19.6", "R1", "unknown caps: a prefix is stripped only after startswith(that prefix); 'imm.' is kept "
